@@ -12,6 +12,9 @@ fn main() {
     if args.len() >= 2 && args[1] == "--specval" {
         std::process::exit(specval());
     }
+    if args.len() >= 3 && args[1] == "--sys" {
+        std::process::exit(sys(&args[2]));
+    }
     if args.len() < 3 {
         eprintln!("usage: rbreplay <harness> <values-file>");
         std::process::exit(2);
@@ -99,5 +102,89 @@ fn specval() -> i32 {
         0
     } else {
         1
+    }
+}
+
+/// System-level replays of search findings on the REAL search (no stubs): the solver finds
+/// these on one function with stubbed callees; here the whole engine is driven natively.
+/// exit 1 = the defect shows, exit 0 = it does not.
+fn sys(name: &str) -> i32 {
+    use rbverif::chess::Game;
+    use rbverif::search::{get_best_move_until_stop, TranspositionTable};
+    use std::collections::HashMap;
+    use std::sync::atomic::{AtomicBool, Ordering::Relaxed};
+    use std::sync::{mpsc, Arc};
+    use std::time::Duration;
+    let new_table = || -> TranspositionTable { HashMap::with_hasher(Default::default()) };
+    match name {
+        // C07: the stop arrives before the first iteration completes
+        "c07_stop_before_first_iteration" => {
+            let game = Game::default();
+            let mut table = new_table();
+            let flag = AtomicBool::new(false);
+            let r = get_best_move_until_stop(&game, &mut table, &flag, None);
+            if r.is_none() {
+                println!("SYS-REPRODUCED: stop before depth 1 completes -> no move (`bestmove none`) in the start position");
+                1
+            } else {
+                println!("SYS-PASSED: a move is returned");
+                0
+            }
+        }
+        // C08: depth limit below the depth of the cached exact root entry
+        "c08_limit_below_cached_depth" => {
+            let (tx, rx) = mpsc::channel();
+            let flag = Arc::new(AtomicBool::new(true));
+            let f2 = flag.clone();
+            std::thread::spawn(move || {
+                let game = Game::default();
+                let mut table = new_table();
+                let _ = get_best_move_until_stop(&game, &mut table, &f2, Some(4));
+                let _ = get_best_move_until_stop(&game, &mut table, &f2, Some(2));
+                let _ = tx.send(());
+            });
+            match rx.recv_timeout(Duration::from_secs(25)) {
+                Ok(()) => {
+                    println!("SYS-PASSED: `go depth 2` after `go depth 4` ended by itself");
+                    0
+                }
+                Err(_) => {
+                    flag.store(false, Relaxed);
+                    println!("SYS-REPRODUCED: `go depth 2` after `go depth 4` on the same position did not stop by itself within 25 s");
+                    1
+                }
+            }
+        }
+        // C08: unlimited search on a tiny position
+        "c08_unlimited_tiny_position" => {
+            let flag = Arc::new(AtomicBool::new(true));
+            let f2 = flag.clone();
+            let h = std::thread::spawn(move || {
+                let game = Game::new("8/8/8/4k3/8/8/4K3/8 w - -").unwrap();
+                let mut table = new_table();
+                get_best_move_until_stop(&game, &mut table, &f2, None)
+            });
+            for _ in 0..200 {
+                std::thread::sleep(Duration::from_millis(100));
+                if h.is_finished() {
+                    break;
+                }
+            }
+            flag.store(false, Relaxed);
+            match h.join() {
+                Ok(_) => {
+                    println!("SYS-PASSED: the unlimited search ran for 20 s (or ended) without crashing");
+                    0
+                }
+                Err(_) => {
+                    println!("SYS-REPRODUCED: the unlimited search on K v K panicked");
+                    1
+                }
+            }
+        }
+        _ => {
+            eprintln!("unknown system replay {}", name);
+            2
+        }
     }
 }
